@@ -292,6 +292,20 @@ theorem mutual_exclusion (d0 : σ) (progs : List (List (Op σ ρ))) (sched : Lis
       have := h.rHeld u thu hu hR'
       simp [hr] at this
 
+/-- The thread model uses the lock exactly as Part 1 describes it (arc build): projected to
+`(readers, writer)`, every micro-step either leaves the lock alone or is a *successful*
+`borrow` / `borrow_mut` / guard drop of `lockStep .arc`; and a thread that is not enabled at an
+acquire is precisely one whose blocking request answers `block`. -/
+theorem lock_refines_protocol (d0 : σ) (progs : List (List (Op σ ρ))) (sched : List Nat) (t : Nat) :
+    let g := exec (init d0 progs) sched
+    ((step g t).lockSt = g.lockSt ∨ ∃ r, lockStep .arc g.lockSt r = (.ok, (step g t).lockSt)) ∧
+    (∀ (th : Thread σ ρ) (o : Op σ ρ) (rest : List (Op σ ρ)), g.threads[t]? = some th →
+      th.phase = .idle → th.prog = o :: rest → enabled g t = false →
+      (lockStep .arc g.lockSt (if o.write then .borrowMut else .borrow)).1 = .block ∧ step g t = g) := by
+  intro g
+  exact ⟨conc_lock_refines g (inv_reachable d0 progs sched).lock t,
+    fun th o rest ht hp hprog hne => blocked_is_block g t th o rest ht hp hprog hne⟩
+
 /-- The lock is what makes it hold. Mutant "`borrow_mut` implemented with `read()`": two threads,
 one increment each, interleaved load/load/store/store — one update is lost. -/
 theorem lost_update_without_write_lock_witness :
